@@ -58,6 +58,11 @@ theorem facts02_good : facts02.Good :=
     `max_occurs=1`… are accepted) -/
 theorem facts02_nofreq : facts02.noFreqKeepsValidation = true := by decide
 
+/-- non-interference: the attribute caches (incl. per-protocol attributes) are per protocol instance, so the verdict of a
+    configuration is the function of (configuration, types, document) the theorems below are about — it does not depend on
+    other protocol instances in the process or on the order in which they first used a type (T3: `probe_prot_attrs`) -/
+theorem facts02_attr_caches : facts02.attrCachesPerInstance = true := by decide
+
 /-- the enumeration facet treats the falsy values of a kind ('' / 0 / 0.0 / False) like any other value: only `None` passes
     for a nillable type -/
 theorem facts02_values_none : facts02.valuesNullTestIsNone = true := by decide
